@@ -1,9 +1,106 @@
 import QecVerif.Model.Wire
+import QecVerif.Model.ErrorModels
 namespace Qec.Drv
-open Qec Qec.Wire
+open Qec Qec.Wire Qec.EM
 
-/-- driver ops of property C16 (first protocol token `c16`) -/
+namespace C16
+
+def showDist (d : Dist) : String :=
+  "ok " ++ showRat d.pI ++ " " ++ showRat d.pX ++ " " ++ showRat d.pY ++ " " ++ showRat d.pZ
+
+def showV3 (v : V3) : String := showRat v.x ++ "," ++ showRat v.y ++ "," ++ showRat v.z
+
+def parseAxis? (s : String) : Option Axis :=
+  if s == "X" then some .X else if s == "Y" then some .Y else if s == "Z" then some .Z else none
+
+def showAxis : Axis → String
+  | .X => "X" | .Y => "Y" | .Z => "Z"
+
+/-- scalar value: `i:<int>` `b:0|1` `f:<rat>` `nan` `+inf` `-inf` `s:<chars>` `N` -/
+def parsePS? (s : String) : Option PS :=
+  if s == "nan" then some .nan else if s == "+inf" then some .pinf else if s == "-inf" then some .ninf
+  else if s == "N" then some .none
+  else if s.startsWith "i:" then (s.drop 2).toString.toInt?.map PS.int
+  else if s == "b:1" then some (.bool true) else if s == "b:0" then some (.bool false)
+  else if s.startsWith "f:" then (parseRat? (s.drop 2).toString).map PS.flt
+  else if s.startsWith "s:" then some (.str (s.drop 2).toString)
+  else none
+
+/-- value: scalar, or `[v;v;…]` (`[]` empty) -/
+def parsePV? (s : String) : Option PV :=
+  if s == "[]" then some (.seq []) else
+  if s.startsWith "[" && s.endsWith "]" then
+    ((((s.drop 1).toString.dropEnd 1).toString.splitOn ";").mapM parsePS?).map PV.seq
+  else (parsePS? s).map PV.s
+
+def showErr : CtorErr → String
+  | .value => "ValueError" | .type => "TypeError"
+
+def showNum : Num → String
+  | .fin q => showRat q | .nan => "nan" | .pinf => "+inf" | .ninf => "-inf"
+
+end C16
+open C16
+
+/-- driver ops of property C16 (first protocol token `c16`)
+    dist dep|bf|pf|bpf <p>             → ok pI pX pY pZ          (exact rationals)
+    dist bd <bias> <X|Y|Z> <p>         → ok pI pX pY pZ
+    dist slice <l0> <l1> <l2> <pos> <p>→ ok pI pX pY pZ | QecsimError
+    slice.info <l0> <l1> <l2> <pos>    → ok lim=<v3> ratio=<v3>|E neglim=<v3>|E
+    yxres <p> <bias> <px> <py> <pz>    → ok r1 r2 r3 disc        (residuals of the defining equations)
+    yxexact <bias> <p>                 → ok pI pX pY pZ | irrational
+    ctor bd <val> <val> | ctor byx <val> | ctor slice <val> <val>
+                                       → ok … | ValueError | TypeError | unmodelled -/
 def c16 : List String → Option String
+  | ["dist", m, p] => do
+      let p ← parseRat? p
+      if m == "dep" then pure (showDist (depolarizing p))
+      else if m == "bf" then pure (showDist (bitFlip p))
+      else if m == "pf" then pure (showDist (phaseFlip p))
+      else if m == "bpf" then pure (showDist (bitPhaseFlip p))
+      else none
+  | ["dist", "bd", b, ax, p] => do
+      let b ← parseRat? b; let ax ← parseAxis? ax; let p ← parseRat? p
+      pure (showDist (biasedDepolarizing b ax p))
+  | ["dist", "slice", l0, l1, l2, pos, p] => do
+      let l0 ← parseRat? l0; let l1 ← parseRat? l1; let l2 ← parseRat? l2
+      let pos ← parseRat? pos; let p ← parseRat? p
+      match centerSlice? ⟨l0, l1, l2⟩ pos p with
+      | some d => pure (showDist d)
+      | none => pure "QecsimError"
+  | ["slice.info", l0, l1, l2, pos] => do
+      let l0 ← parseRat? l0; let l1 ← parseRat? l1; let l2 ← parseRat? l2
+      let pos ← parseRat? pos
+      let lim := normalize ⟨l0, l1, l2⟩
+      let sh : Option V3 → String := fun o => match o with | some v => showV3 v | none => "E"
+      pure ("ok lim=" ++ showV3 lim ++ " ratio=" ++ sh (ratio? lim pos) ++ " neglim=" ++ sh (negLim? lim))
+  | ["yxres", p, b, px, py, pz] => do
+      let p ← parseRat? p; let b ← parseRat? b
+      let px ← parseRat? px; let py ← parseRat? py; let pz ← parseRat? pz
+      let (r1, r2, r3) := biasedYXResidual p b (px, py, pz)
+      pure ("ok " ++ showRat r1 ++ " " ++ showRat r2 ++ " " ++ showRat r3 ++ " " ++ showRat (yxDisc b p))
+  | ["yxexact", b, p] => do
+      let b ← parseRat? b; let p ← parseRat? p
+      match biasedYX? b p with
+      | some d => pure (showDist d)
+      | none => pure "irrational"
+  | ["ctor", "bd", b, ax] => do
+      let b ← parsePV? b; let ax ← parsePV? ax
+      match ctorBiasedDepolarizing b ax with
+      | .ok (q, a) => pure ("ok " ++ showRat q ++ " " ++ showAxis a)
+      | .error e => pure (showErr e)
+  | ["ctor", "byx", b] => do
+      let b ← parsePV? b
+      match ctorBiasedYX b with
+      | .ok q => pure ("ok " ++ showRat q)
+      | .error e => pure (showErr e)
+  | ["ctor", "slice", l, pos] => do
+      let l ← parsePV? l; let pos ← parsePV? pos
+      match ctorCenterSlice l pos with
+      | none => pure "unmodelled"
+      | some (.error e) => pure (showErr e)
+      | some (.ok a) => pure ("ok " ++ ",".intercalate (a.lim.map showNum) ++ " " ++ showRat a.pos ++
+          " dom=" ++ showBool (limInDomain a.lim))
   | _ => none
 
 end Qec.Drv
